@@ -112,7 +112,9 @@ def source_table(ctx: Ctx):
     where = "cube.py::Cube.counts_with_missings"
     if ctx.repo.lookup(cube, "counts_with_missings") is None:
         raise AnalysisError("Cube.counts_with_missings vanished")
-    e = expand(ctx.repo, cube, "counts_with_missings", stop=lambda m: m.name not in ("counts_with_missings", "has_weighted_counts", "weighted_counts"))
+    from ..symex import distribute_attr
+
+    e = distribute_attr(expand(ctx.repo, cube, "counts_with_missings", stop=lambda m: m.name not in ("counts_with_missings", "has_weighted_counts", "weighted_counts") and not (m.name.startswith("_") and m.cls.name == "Cube" and m.name not in ("_measures", "_valid_idxs", "_all_dimensions", "_cube_response"))))
     names = ["weighted_valid_counts", "unweighted_valid_counts", "weighted_counts", "unweighted_counts"]
     bad, n, undec = [], 0, None
     for combo in itertools.product((True, False), repeat=3):
